@@ -643,14 +643,14 @@ pub fn generate_cms_into(ctx: &mut Ctx, seeds: &[(&'static str, Vec<u8>)], mutat
                          systematic: &dyn Fn(&[u8]) -> Vec<Vec<u8>>) {
     let mut rng = Rng::new(ctx.seed ^ 0xC355D);
     let all: Vec<Vec<u8>> = seeds.iter().map(|s| s.1.clone()).collect();
-    let per = if ctx.id == "C02" { if ctx.tier_thorough { 300 } else { 30 } } else if ctx.tier_thorough { 1500 } else { 150 };
+    let per = if ctx.id == "C02" || ctx.id == "C14" { if ctx.tier_thorough { 300 } else { 30 } } else if ctx.tier_thorough { 1500 } else { 150 };
     for (entry, data) in seeds {
         let ty = match *entry { "roa" => "roa", "aspa" => "aspa", "mft" => "mft", "so" => "so", _ => continue };
         if data.len() > 6000 { continue }
         ctx.case(&format!("cmsd {} {}", ty, hex(data)));
         for other in ["so", "roa", "aspa", "mft"] { if other != ty { ctx.case(&format!("cmsd {} {}", other, hex(data))); } }
         for d in structured_cms(data) { ctx.case(&format!("cmsd {} {}", ty, hex(&d))); }
-        if ctx.id != "C02" { for d in systematic(data) { ctx.case(&format!("cmsd {} {}", ty, hex(&d))); } }
+        if ctx.id != "C02" && ctx.id != "C14" { for d in systematic(data) { ctx.case(&format!("cmsd {} {}", ty, hex(&d))); } }
         for _ in 0..per {
             let mut d = mutate(&mut rng, data, &all);
             if rng.chance(1, 5) { d = mutate(&mut rng, &d, &all); }
